@@ -63,8 +63,14 @@ def _get_unmarshaller(  # type: ignore[return]
     node: graph.TypeNode,
     context: routines.ContextT,
 ) -> routines.AbstractMarshaller[T]:
-    if node.type in context:
+    # Re-use what we've built, but never mistake the placeholder of a deferred
+    #   type for the routine of the type itself.
+    if node.type in context and not isinstance(context[node.type], DelayedMarshaller):
         return context[node.type]
+
+    # A cyclic node defers a type we're still building: resolve it at call-time.
+    if node.cyclic:
+        return DelayedMarshaller(node.unwrapped, context=context, var=node.var)
 
     for check, unmarshaller_cls in _HANDLERS.items():
         if check(node.unwrapped):
